@@ -307,9 +307,26 @@ class FakeWorld:
         self.calls.append((src, dest))
 
 
-def util_case(s: Suite, n_src, n_dest, evenly, max_c, oracle):
+def util_entities(n_src, n_dest, inst):
+    """Sources / destinations as mosaik hands them to a user: `Entity` objects of `inst` instances of one simulator
+    model each, whose entity ids coincide across the instances (inst = 0: plain ints).  Returns the two lists and the
+    map object identity -> the int the model uses."""
     srcs = list(range(n_src))
     dests = list(range(100, 100 + n_dest))
+    if not inst:
+        return srcs, dests, None
+    from mosaik.scenario import Entity
+    so = [Entity(f"Src-{i % inst}", f"e{i // inst}", "Src", None, None) for i in srcs]
+    do = [Entity(f"Dst-{i % inst}", f"e{i // inst}", "Dst", None, None) for i in range(n_dest)]
+    ident = {id(o): k for o, k in zip(so + do, srcs + dests)}
+    return so, do, ident
+
+
+def util_case(s: Suite, n_src, n_dest, evenly, max_c, oracle, inst=0):
+    srcs = list(range(n_src))
+    dests = list(range(100, 100 + n_dest))
+    so, do, ident = util_entities(n_src, n_dest, inst)
+    key = (lambda o: o) if ident is None else (lambda o: ident[id(o)])
     w = FakeWorld()
     saved = mutil.random
     mutil.random = FakeRandom(oracle)
@@ -318,8 +335,8 @@ def util_case(s: Suite, n_src, n_dest, evenly, max_c, oracle):
         if max_c is not None:
             kw["max_connects"] = max_c
         try:
-            ret = mutil.connect_randomly(w, list(srcs), list(dests), "a", evenly=evenly, **kw)
-            r = f"ok {len(w.calls)}" + "".join(f" {a} {b}" for a, b in w.calls) + " ret " + s_list(sorted(ret))
+            ret = mutil.connect_randomly(w, list(so), list(do), "a", evenly=evenly, **kw)
+            r = f"ok {len(w.calls)}" + "".join(f" {key(a)} {key(b)}" for a, b in w.calls) + " ret " + s_list(sorted(key(o) for o in ret))
         except AssertionError:
             r = "AssertionError"
     finally:
@@ -329,13 +346,13 @@ def util_case(s: Suite, n_src, n_dest, evenly, max_c, oracle):
     else:
         line = f"randomly {s_list(srcs)} {s_list(dests)} {'-' if max_c is None else max_c} {s_list(oracle)}"
     s.add(line, r, ("evenly" if evenly else f"randomly:max={max_c}") + ":" + r[:2] +
-          (":full" if (max_c is not None and n_src == n_dest * max_c) else ""))
+          (":full" if (max_c is not None and n_src == n_dest * max_c) else "") + (f":entities x{inst}" if inst else ""))
 
 
 def suite_util(rng: random.Random, tier: str) -> Suite:
     s = Suite("util")
     s.rule = ("connect_randomly with random.shuffle/randint replaced by an oracle: source sizes 0-12 x destination sizes 0-8 x "
-              "evenly / max_connects in {1,2,3,inf}, several oracles each (incl. sizes where the destinations are exactly full); "
+              "evenly / max_connects in {1,2,3,inf}, several oracles each (incl. sizes where the destinations are exactly full), with ints and with mosaik Entity objects from 1-3 instances of one model whose entity ids coincide; "
               "connect_many_to_one for sizes 0-6")
     reps = 3 if tier == "quick" else 25
     for n_src in range(0, 13):
@@ -345,6 +362,10 @@ def suite_util(rng: random.Random, tier: str) -> Suite:
                 util_case(s, n_src, n_dest, True, None, oracle)
                 for max_c in (1, 2, 3, None):
                     util_case(s, n_src, n_dest, False, max_c, oracle)
+                # the same with real Entity objects from 1-3 instances of one model (coinciding entity ids)
+                inst = rng.choice([1, 2, 2, 3])
+                util_case(s, n_src, n_dest, True, None, oracle, inst)
+                util_case(s, n_src, n_dest, False, rng.choice([1, 2, None]), oracle, inst)
     for n_src in range(0, 7):
         w = FakeWorld()
         mutil.connect_many_to_one(w, list(range(n_src)), 500, "a")
